@@ -73,6 +73,7 @@ typedef struct emUsage {
 	BPack(Bool)	mark;		/* mark for detecting circular links */
 	BPack(Bool)	isSet;		/* has an assignment been seen? */
 	int		nDefs;		/* assignments seen in this marking run */
+	BPack(Bool)	handedOn;	/* structure given another name in this run */
 	struct emUsage	*link;		/* for following aliases of locals */
 } *EmUsage;
 
@@ -89,6 +90,8 @@ local void	emMarkAElt		(Foam aelt);
 local void	emMarkRElt		(Foam aelt);
 local void	emMarkRRElt		(Foam aelt);
 local Bool	emCheckRElt		(Foam relt, int fmt);
+local Bool	emIsHandedOn		(Foam var);
+local Bool	emHandedOnTwice		(Foam var);
 local void	emComputeRemap		(Foam prog);
 local void	emRemapEnv0		(EmUsage, EmUsage);
 local void	emMergeEnv		(int n, Bool);
@@ -290,6 +293,7 @@ emMakeUsageVec(Foam ddecl)
 		emu[i].decl   = NULL;
 		emu[i].isSet  = false;
 		emu[i].nDefs  = 0;
+		emu[i].handedOn = false;
 		emu[i].format = emptyFormatSlot;
 	}
 	emu[0].used = EM_NonEscapingEnv;	/* for Env(0) */
@@ -492,6 +496,19 @@ emMarkDef(Foam def)
 
 	if (foamTag(rhs0) == FOAM_Loc) {
 		if (ltag == FOAM_Loc) {
+			/*
+			 * The parts of a record or array with two names
+			 * are kept in step only by the copy made here, so
+			 * from here on it may be used through lhs alone
+			 * (see emMarkRElt and emMarkAElt).
+			 */
+			Bool twice = emHandedOnTwice(rhs0);
+			emUsage(rhs0)->handedOn = true;
+			if (twice) {
+				emMarkLocal(rhs0);
+				emMarkLocal(lhs);
+			}
+			else
 			if (multi || emUsageAliasing(lhs)->used ==
 			    EM_EscapingEnv) {
 				emMarkLocal(rhs0);
@@ -603,7 +620,7 @@ emMarkAElt(Foam aelt)
  	foamDereferenceCast(array);
 
 	if (foamTag(array) != FOAM_Loc) return;
-	if (!emIsSInt(index))
+	if (!emIsSInt(index) || emIsHandedOn(array))
 		emMarkLocal(array);
 	else if (emSIntValue(index) >= emUsageAliasing(array)->format)
 		emUsageAliasing(array)->format = emSIntValue(index)+1;
@@ -631,6 +648,34 @@ emMarkRElt(Foam relt)
 
 	if (!emCheckRElt(var, relt->foamRElt.format))
 		emMarkLocal(var);
+	else if (emIsHandedOn(var))
+		emMarkLocal(var);
+}
+
+/*
+ * True if var is a local whose structure was given to another local
+ * earlier in this marking run.
+ */
+local Bool
+emIsHandedOn(Foam var)
+{
+	foamDereferenceCast(var);
+	return foamTag(var) == FOAM_Loc && emUsage(var)->handedOn;
+}
+
+/*
+ * True if the record or array in var (not a lexical environment, whose
+ * levels are only ever read through their newest name) already has
+ * another name.
+ */
+local Bool
+emHandedOnTwice(Foam var)
+{
+	Foam type;
+
+	if (!emIsHandedOn(var)) return false;
+	type = emUsageAliasing(var)->type;
+	return !type || foamTag(type) != FOAM_PushEnv;
 }
 
 local Bool
@@ -1377,6 +1422,7 @@ emCleanTypeUsage()
 	for (i = 0 ; i < emOrigNumLocals ;i++) {
 		emUsageFromLocalIndex((long)i)->type = (Foam) 0 ;
 		emUsageFromLocalIndex((long)i)->nDefs = 0;
+		emUsageFromLocalIndex((long)i)->handedOn = false;
 	}
 	
 }
